@@ -71,6 +71,21 @@ func (p *Program) lookupsIn(fn *ssa.Function) []mapLookup {
 	return out
 }
 
+// expandPhis: a phi is replaced by its incoming values, each committed at the end of the predecessor it
+// flows in from.
+func expandPhis(va valAt, depth int) []valAt {
+	phi, ok := canon(stripConv(va.Val)).(*ssa.Phi)
+	if !ok || depth == 0 {
+		return []valAt{va}
+	}
+	var out []valAt
+	for i, e := range phi.Edges {
+		pred := phi.Block().Preds[i]
+		out = append(out, expandPhis(valAt{e, pred.Instrs[len(pred.Instrs)-1]}, depth-1)...)
+	}
+	return out
+}
+
 // missEdges returns, for every If of fn that tests the "found" flag of l, the index of its miss edge.
 func missEdges(fn *ssa.Function, l *mapLookup) map[*ssa.BasicBlock]int {
 	out := map[*ssa.BasicBlock]int{}
@@ -282,7 +297,45 @@ func (c *Ctx) checkDoubleChecked(rule string, eng *lockEngine) {
 					}
 				}
 			})
-			if okAlloc {
+			// the object created here is handed out only registered: every return of it is preceded by
+			// its insertion (a loser of the creation race must return the winner's object, not its own)
+			okRet := true
+			created := canon(stripConv(mu.Value))
+			if ex, isEx := created.(*ssa.Extract); isEx {
+				for i := range lookups {
+					if lookups[i].at == ex.Tuple.(ssa.Instruction) {
+						created = nil // an existing entry registered under one more key, not a new object
+					}
+				}
+			}
+			for _, r := range returnsOf(fn) {
+				if created == nil {
+					break
+				}
+				if len(r.Results) == 0 {
+					continue
+				}
+				for _, va0 := range resultValues(r, 0) {
+					for _, va := range expandPhis(va0, 3) {
+						if canon(stripConv(va.Val)) != created {
+							continue
+						}
+						registered := false
+						instrsOf(fn, func(i ssa.Instruction) {
+							if m2, isMU := i.(*ssa.MapUpdate); isMU && canon(stripConv(m2.Value)) == created {
+								if f2, b2 := loadedField(m2.Map); f2 == f && accessPath(b2) == accessPath(base) && (dominates(i, va.At) || i == va.At) {
+									registered = true
+								}
+							}
+						})
+						if !registered {
+							okRet = false
+							c.bad(rule, key+":returned", va.At.Pos(), "the object created here is returned on a path on which it was not inserted into "+im.field+": the caller holds an object the scope does not know (what is recorded on it is never reported, and a later request for the same name returns a different object)", c.describe(va.At))
+						}
+					}
+				}
+			}
+			if okAlloc && okRet {
 				if viaDelete {
 					c.ok(rule, key, in.Pos(), "inserted after a same-key lookup made under the write lock, on its miss edge or after deleting the entry found, without releasing the lock")
 				} else {
@@ -313,7 +366,333 @@ func checkC09(c *Ctx) {
 	for _, f := range [][3]string{{"", "scope", "closed"}, {"", "counter", "curr"}, {"", "counter", "prev"}, {"", "gauge", "curr"}, {"", "gauge", "updated"}, {"m3/thriftudp", "TUDPTransport", "closed"}} {
 		c.checkAtomicOnly("O2 atomic-only", f[0], f[1], f[2])
 	}
+	c.checkPrivateKeyBuffer("O4 private-key-buffer")
 	c.checkLockPairing("O3 lock-pairing", pkgs, eng, 15)
 	c.checkLockOrder("O3 lock-order", pkgs, eng)
 	_ = token.NoPos
+}
+
+// checkPrivateKeyBuffer: a byte slice that is viewed as a string through an unsafe pointer cast
+// (the registry's allocation-free lookup key) must be private to the call for as long as that string
+// can be read: it is built from storage allocated in the same function, and neither the slice nor
+// anything it is derived from is handed to code that could retain or recycle it (a pool, a field,
+// a global, another goroutine). Otherwise a concurrent first user can overwrite the bytes behind the
+// key between the lookup and the insertion, and a scope is registered under another identity's key.
+func (c *Ctx) checkPrivateKeyBuffer(rule string) {
+	n := 0
+	for _, fn := range c.funcsOfPkg("") {
+		instrsOf(fn, func(in ssa.Instruction) {
+			cv, ok := in.(*ssa.Convert)
+			if !ok {
+				return
+			}
+			if b, isB := cv.Type().Underlying().(*types.Basic); !isB || b.Kind() != types.UnsafePointer {
+				return
+			}
+			pt, isP := cv.X.Type().Underlying().(*types.Pointer)
+			if !isP {
+				return
+			}
+			if sl, isS := pt.Elem().Underlying().(*types.Slice); !isS || !types.Identical(sl.Elem(), types.Typ[types.Byte]) {
+				return
+			}
+			n++
+			key := fmt.Sprintf("%s#%d", c.fnKey(fn), n)
+			c.sawFunc(c.fnKey(fn))
+			cell, isAl := cv.X.(*ssa.Alloc)
+			if !isAl {
+				c.bad(rule, key, in.Pos(), "the byte slice viewed as a string through unsafe.Pointer is not a local variable of this function", c.describe(in))
+				return
+			}
+			why, at := c.privateSlice(fn, cell, cv)
+			if why != "" {
+				c.bad(rule, key, at.Pos(), "the bytes behind the unsafe string key are not private to this call: "+why+"; a concurrent caller can change them while the key is still in use (lookup, copy, insertion), so a scope is looked up or registered under another identity's key", c.describe(at))
+				return
+			}
+			c.ok(rule, key, in.Pos(), "the buffer behind the unsafe string is allocated in this call and never handed to code that could retain or recycle it")
+		})
+	}
+	c.floor(rule, n, 1)
+}
+
+// privateSlice: see checkPrivateKeyBuffer. Returns "" when private, else the reason and the site.
+func (c *Ctx) privateSlice(fn *ssa.Function, cell *ssa.Alloc, cast *ssa.Convert) (string, ssa.Instruction) {
+	tracked := map[ssa.Value]bool{}
+	var work []ssa.Value
+	add := func(v ssa.Value) {
+		if !tracked[v] {
+			tracked[v] = true
+			work = append(work, v)
+		}
+	}
+	// backward: what is stored into the cell must be derived from fresh storage
+	visiting := map[ssa.Value]bool{}
+	var fresh func(v ssa.Value, depth int) (string, ssa.Instruction)
+	fresh = func(v ssa.Value, depth int) (string, ssa.Instruction) {
+		at, _ := v.(ssa.Instruction)
+		if at == nil {
+			at = cast
+		}
+		if visiting[v] {
+			return "", nil
+		}
+		visiting[v] = true
+		defer delete(visiting, v)
+		if depth == 0 {
+			return "its origin could not be traced", at
+		}
+		switch x := v.(type) {
+		case *ssa.MakeSlice:
+			add(x)
+			return "", nil
+		case *ssa.Slice:
+			add(x)
+			if al, ok := x.X.(*ssa.Alloc); ok && al.Parent() == fn {
+				if _, isArr := deref(al.Type()).Underlying().(*types.Array); isArr {
+					return "", nil
+				}
+			}
+			return fresh(x.X, depth-1)
+		case *ssa.Phi:
+			add(x)
+			for _, e := range x.Edges {
+				if w, a := fresh(e, depth-1); w != "" {
+					return w, a
+				}
+			}
+			return "", nil
+		case *ssa.Call:
+			add(x)
+			if isBuiltin(x, "append") {
+				return fresh(x.Call.Args[0], depth-1)
+			}
+			g := staticCallee(x)
+			if g == nil || !c.inModule(g) || g.Blocks == nil {
+				return "it comes from " + c.describe(x) + " (not an allocation of this call)", x
+			}
+			// a builder: returns only what it derives from one of its parameters, and does not leak it
+			for i, a := range x.Call.Args {
+				if _, isSl := a.Type().Underlying().(*types.Slice); !isSl || i >= len(g.Params) {
+					continue
+				}
+				if c.returnsDerivedFromParam(g, i) {
+					if w := c.paramLeak(g, i); w != "" {
+						return g.Name() + " " + w, x
+					}
+					return fresh(a, depth-1)
+				}
+			}
+			return "it is the result of " + g.Name() + ", which does not build it from storage of this call", x
+		}
+		return "it comes from " + v.Name() + " (" + fmt.Sprintf("%T", v) + "), not from an allocation of this call", at
+	}
+	if cell.Referrers() != nil {
+		for _, r := range *cell.Referrers() {
+			switch x := r.(type) {
+			case *ssa.Store:
+				if x.Addr == ssa.Value(cell) {
+					if w, a := fresh(x.Val, 30); w != "" {
+						return w, a
+					}
+				} else {
+					return "the address of the buffer variable is stored", x
+				}
+			case *ssa.UnOp:
+				add(x) // a load of the slice
+			case *ssa.Convert, *ssa.DebugRef:
+			default:
+				return "the address of the buffer variable escapes", r
+			}
+		}
+	}
+	// forward: none of the tracked slice values reaches anything that could keep it
+	for len(work) > 0 {
+		v := work[len(work)-1]
+		work = work[:len(work)-1]
+		if v.Referrers() == nil {
+			continue
+		}
+		for _, r := range *v.Referrers() {
+			switch x := r.(type) {
+			case *ssa.DebugRef:
+			case *ssa.Store:
+				if x.Addr != ssa.Value(cell) {
+					return "the slice is stored outside the function's own buffer variable", x
+				}
+			case *ssa.Slice:
+				add(x)
+			case *ssa.Phi:
+				add(x)
+			case *ssa.IndexAddr, *ssa.Index, *ssa.Lookup:
+			case *ssa.Call:
+				if isBuiltin(x, "append") || isBuiltin(x, "len") || isBuiltin(x, "cap") || isBuiltin(x, "copy") {
+					if isBuiltin(x, "append") && x.Call.Args[0] == v {
+						add(x)
+					}
+					continue
+				}
+				g := staticCallee(x)
+				if g != nil && !c.inModule(g) && g.Pkg != nil && g.Pkg.Pkg.Path() == "hash/maphash" {
+					continue // reads the bytes
+				}
+				if g != nil && c.inModule(g) && g.Blocks != nil {
+					leak := ""
+					for i, a := range x.Call.Args {
+						if a == v && i < len(g.Params) {
+							leak = c.paramLeak(g, i)
+							if leak == "" && c.returnsDerivedFromParam(g, i) {
+								add(x)
+							}
+						}
+					}
+					if leak == "" {
+						continue
+					}
+					return "it is handed to " + g.Name() + ", which " + leak, x
+				}
+				return "it is handed to " + c.describe(x) + ", which may retain it", x
+			default:
+				return "it flows into " + c.describe(r) + ", where it may be retained", r
+			}
+		}
+	}
+	return "", nil
+}
+
+// returnsDerivedFromParam: every value g returns as a slice is param i, or append/slice/phi chains of it.
+func (c *Ctx) returnsDerivedFromParam(g *ssa.Function, i int) bool {
+	p := ssa.Value(g.Params[i])
+	visiting := map[ssa.Value]bool{}
+	var der func(v ssa.Value, depth int) bool
+	der = func(v ssa.Value, depth int) bool {
+		if depth == 0 {
+			return false
+		}
+		v = canon(v)
+		if v == p || visiting[v] {
+			return true // visiting: a loop-carried value is derived if all its other sources are
+		}
+		visiting[v] = true
+		defer delete(visiting, v)
+		switch x := v.(type) {
+		case *ssa.Slice:
+			return der(x.X, depth-1)
+		case *ssa.Phi:
+			for _, e := range x.Edges {
+				if e != ssa.Value(x) && !der(e, depth-1) {
+					return false
+				}
+			}
+			return true
+		case *ssa.Call:
+			if isBuiltin(x, "append") {
+				return der(x.Call.Args[0], depth-1)
+			}
+			if h := staticCallee(x); h != nil && c.inModule(h) && h.Blocks != nil {
+				for j, a := range x.Call.Args {
+					if _, isSl := a.Type().Underlying().(*types.Slice); isSl && j < len(h.Params) && der(a, depth-1) && c.returnsDerivedFromParam(h, j) {
+						return true
+					}
+				}
+			}
+		}
+		return false
+	}
+	n := 0
+	for _, r := range returnsOf(g) {
+		for k := range r.Results {
+			if _, isSl := r.Results[k].Type().Underlying().(*types.Slice); !isSl {
+				continue
+			}
+			for _, va := range resultValues(r, k) {
+				n++
+				if !der(va.Val, 40) {
+					return false
+				}
+			}
+		}
+	}
+	return n > 0
+}
+
+// paramLeak: "" when g only reads param i, appends to it, slices it, passes it to builders that do
+// the same, or returns it; otherwise what it does with it.
+func (c *Ctx) paramLeak(g *ssa.Function, i int) string {
+	return c.paramLeakDepth(g, i, 3)
+}
+
+func (c *Ctx) paramLeakDepth(g *ssa.Function, i int, depth int) string {
+	if depth == 0 {
+		return "passes it on too deeply to follow"
+	}
+	seen := map[ssa.Value]bool{}
+	work := []ssa.Value{g.Params[i]}
+	// a parameter that is captured or address-taken is spilled into a cell
+	for len(work) > 0 {
+		v := work[len(work)-1]
+		work = work[:len(work)-1]
+		if seen[v] || v.Referrers() == nil {
+			continue
+		}
+		seen[v] = true
+		for _, r := range *v.Referrers() {
+			switch x := r.(type) {
+			case *ssa.DebugRef, *ssa.Return, *ssa.IndexAddr, *ssa.Index:
+			case *ssa.Slice:
+				work = append(work, x)
+			case *ssa.Phi:
+				work = append(work, x)
+			case *ssa.Store:
+				if al, ok := x.Addr.(*ssa.Alloc); ok && al.Parent() == g && x.Val == v {
+					// local variable: follow its loads
+					if al.Referrers() != nil {
+						for _, ar := range *al.Referrers() {
+							if ld, isLd := ar.(*ssa.UnOp); isLd {
+								work = append(work, ld)
+							} else if _, isSt := ar.(*ssa.Store); !isSt {
+								if _, isDbg := ar.(*ssa.DebugRef); !isDbg {
+									return "lets its buffer variable escape (" + c.describe(ar) + ")"
+								}
+							}
+						}
+					}
+					continue
+				}
+				if x.Val == v {
+					return "stores it (" + c.describe(x) + ")"
+				}
+			case *ssa.Call:
+				if isBuiltin(x, "append") || isBuiltin(x, "len") || isBuiltin(x, "cap") || isBuiltin(x, "copy") {
+					if isBuiltin(x, "append") && x.Call.Args[0] == v {
+						work = append(work, x)
+					}
+					continue
+				}
+				h := staticCallee(x)
+				if h != nil && c.inModule(h) && h.Blocks != nil {
+					for j, a := range x.Call.Args {
+						if a == v && j < len(h.Params) {
+							if w := c.paramLeakDepth(h, j, depth-1); w != "" {
+								return "passes it to " + h.Name() + ", which " + w
+							}
+							if c.returnsDerivedFromParam(h, j) {
+								work = append(work, x)
+							}
+						}
+					}
+					continue
+				}
+				if h != nil && h.Pkg != nil && (h.Pkg.Pkg.Path() == "strconv" || h.Pkg.Pkg.Path() == "unicode/utf8") {
+					if _, isSl := x.Type().Underlying().(*types.Slice); isSl {
+						work = append(work, x) // strconv.AppendX returns the extended slice
+					}
+					continue
+				}
+				return "hands it to " + c.describe(x)
+			default:
+				return "lets it flow into " + c.describe(r)
+			}
+		}
+	}
+	return ""
 }
